@@ -234,6 +234,11 @@ func (c *naluCodec) runSequence(vb *vbuf, init int, seq [][]int) {
 		if dup {
 			suffix = ":same-type-parameter-sets-twice-in-unit"
 		}
+		if u == nil && s.panicked != "" {
+			vb.add(c.name+":panic"+suffix, fmt.Sprintf("%s init=%d units=%v: WriteUnit panicked on unit %d [%s]: %s",
+				c.name, init, replay(step)["access_units"], step, c.auName(au), vcommon.Short(s.panicked, 300)), replay(step))
+			return
+		}
 		if u == nil {
 			vb.add(c.name+":unit-rejected"+suffix, fmt.Sprintf("%s init=%d units=%v: unit %d [%s] was counted as a processing error, nothing delivered",
 				c.name, init, replay(step)["access_units"], step, c.auName(au)), replay(step))
@@ -254,6 +259,7 @@ func (c *naluCodec) runSequence(vb *vbuf, init int, seq [][]int) {
 		if !match {
 			vb.add(c.name+":payload-mismatch"+suffix, fmt.Sprintf("%s state %s, unit [%s]: delivered %s, reference %s (sequence %v, initial parameters %d)",
 				c.name, before, c.auName(au), hexList(got), hexList(accepted[0]), replay(step)["access_units"], init), replay(step))
+			return // the real state may have diverged from the reference: later units of this sequence are not judged
 		}
 		desc := c.getParams(s.outFormat())
 		for k := range cur {
@@ -261,7 +267,7 @@ func (c *naluCodec) runSequence(vb *vbuf, init int, seq [][]int) {
 				vb.add(c.name+":description-not-most-recent"+suffix,
 					fmt.Sprintf("%s state %s, unit [%s]: description reports %s=%x, most recent seen is %x (sequence %v, initial parameters %d)",
 						c.name, before, c.auName(au), c.kinds[k], desc[k], cur[k], replay(step)["access_units"], init), replay(step))
-				break
+				return // state diverged: later units of this sequence are not judged
 			}
 		}
 		changed := !equalLists(beforeCopy, cur)
@@ -305,6 +311,8 @@ func runNALU(c *naluCodec, thorough bool) int64 {
 			l1 = 2 // h265: 12 symbols
 			l3 = 1
 		}
+	} else if len(c.syms) > 10 {
+		l1 = 1 // h265 quick
 	}
 	first := allLists(len(c.syms), l1)
 	second := allLists(len(c.syms), l2)
@@ -316,6 +324,8 @@ func runNALU(c *naluCodec, thorough bool) int64 {
 			n++
 		}
 		vb.flush()
+	}
+	for init := 0; init <= 1; init++ {
 		vbs := make([]vbuf, len(first))
 		vcommon.Parallel(len(first), func(i int) {
 			for _, b := range second {
